@@ -140,6 +140,14 @@ def big_items(rng):
                     continue
                 out.append(('big_offset_%d' % osz, data_bytes(pay, L, S, True, rng.random() < 0.5, ln, osz, rbytes(rng, osz))))
         out.append(('big_offset_short_%d' % osz, data_bytes(b'', False, False, True, False, None, osz, rbytes(rng, 300))))
+    # a message that declares its length, as the first of many in one buffer: 64 KiB and more behind it (the number of octets
+    # left in the reader no longer fits 16 bits)
+    for k in range(3):
+        b = rand_valid_ctrl_bytes(rng, rng.randrange(1, 4)) if k < 2 else data_bytes(rbytes(rng, rng.randrange(5, 30)), True, rng.random() < 0.5, rng.random() < 0.5,
+                                                                                      False, None, 2, b'\x00\x00')
+        n = len(b)
+        for sfx in sorted(set([65536 - n + d for d in (0, 1, 7, 12, n - 1, n)] + [65536, 70000])):
+            out.append(('followed_by_%d' % sfx, b + rbytes(rng, sfx)))
     return out
 
 
